@@ -86,17 +86,23 @@ func init() {
 
 	(&specSweepCheck{
 		id: "C09",
-		rule: "input-space exploration with require-order set: every argv of length <= L over {known flag, valued option, value, optional-value option, multi-value option, command, positional, `-`, unknown option, terminator} x 3 modes x 3 unknown modes; " +
+		rule: "input-space exploration with require-order set (on the root, or only on a command): every argv of length <= L over {known flag, valued option, value, optional-value option, multi-value option, command, positional, `-`, unknown option, terminator} x 3 modes x 3 unknown modes; " +
 			"remaining, option values, Called compared with the reference model, and differentially with Parse of the prefix before the stop point on a program without require-order; " +
 			"distinct_nontrivial = distinct (definition, argv) cases inside the specified territory",
 		defs: func(string) []*ph.Def {
-			return configs(defC09, []bool{true})
+			ds := configs(defC09, []bool{true})
+			// require-order set on the command only
+			for _, d := range configs(defC09, []bool{false}) {
+				d.Root.Cmds[0].RequireOrder = true
+				ds = append(ds, d)
+			}
+			return ds
 		},
-		alpha:  []string{"--a", "--s", "v", "--so", "--l", "c", "p", "-", "--zz", "--"},
+		alpha:  []string{"--a", "--s", "v", "--so", "--l", "c", "p", "-", "--zz", "--", "-az", "--d"},
 		depthQ: 4, depthT: 6,
 		facets: ph.AllFacets,
 		extra: func(pc *parserCase, info specInfo) ([]string, []string) {
-			if !info.inDomain || info.ex.Err || info.o.HasErr {
+			if !info.inDomain || info.ex.Err || info.o.HasErr || len(info.ex.UnspecVals) > 0 {
 				return nil, nil
 			}
 			ex := info.ex
@@ -104,19 +110,20 @@ func init() {
 			cs := []string{}
 			if ex.StopIdx >= 0 {
 				cs = append(cs, "in_domain_cases_that_stop")
-				// everything from the stop point on is returned verbatim
-				if !eqStr(info.o.Remaining, pc.Argv[ex.StopIdx:]) {
-					msgs = append(msgs, fmt.Sprintf("require-order: remaining is %q, want the input from the stop point on %q", info.o.Remaining, pc.Argv[ex.StopIdx:]))
-				}
 				// everything before it is parsed exactly as without require-order
-				d2 := *pc.Def
-				d2.RequireOrder = false
-				p2 := ph.Build(&d2, nil)
+				d2 := defC09()
+				d2.Mode, d2.Unknown = pc.Def.Mode, pc.Def.Unknown
+				p2 := ph.Build(d2, nil)
 				o2 := p2.Run(pc.Argv[:ex.StopIdx], false)
 				p2.Close()
 				if o2.HasErr {
 					msgs = append(msgs, fmt.Sprintf("require-order: the prefix %q fails without require-order (%s) but succeeded with it", pc.Argv[:ex.StopIdx], o2.ParseErr))
 				} else {
+					// everything from the stop point on is returned verbatim (after whatever the part before it left over)
+					want := append(append([]string{}, o2.Remaining...), pc.Argv[ex.StopIdx:]...)
+					if !eqStr(info.o.Remaining, want) {
+						msgs = append(msgs, fmt.Sprintf("require-order: remaining is %q, want %q (left over by the part before the stop point) followed by the input from the stop point on %q", info.o.Remaining, o2.Remaining, pc.Argv[ex.StopIdx:]))
+					}
 					for k, v := range o2.Vals {
 						if info.o.Vals[k] != v || info.o.Called[k] != o2.Called[k] {
 							msgs = append(msgs, fmt.Sprintf("require-order: option %s is %s (called=%v) but parsing the prefix before the stop point without require-order gives %s (called=%v)", k, info.o.Vals[k], info.o.Called[k], v, o2.Called[k]))
